@@ -7,7 +7,7 @@ Exit codes of a check: 0 property held on everything explored; 1 violation (a li
 import json, os, re, shutil, subprocess, sys, time, hashlib, concurrent.futures
 
 VERIF = os.path.dirname(os.path.dirname(os.path.abspath(__file__)))
-REPO = "/repo"
+REPO = os.environ.get("VERIF_REPO", "/repo")      # overridden only by the mutant-evaluation sandbox
 SPEC = os.path.join(VERIF, "spec")
 WORK = os.path.join(VERIF, "work")
 HARNESS = os.path.join(VERIF, "harness")
